@@ -508,3 +508,52 @@ func (pr *prioRoles) vacantsSites() []ssa.Value {
 	}
 	return out
 }
+
+// mustWriteMapField: on every path from the entry of fn to a return, fn (or a product function it
+// calls, to a small depth) writes the map held in the given discipline field: the effect is not
+// conditional on anything.
+func (p *Prog) mustWriteMapField(fn *ssa.Function, field string, depth int) bool {
+	if fn == nil || len(fn.Blocks) == 0 || depth > 4 {
+		return false
+	}
+	ai := p.alias()
+	writes := map[*ssa.BasicBlock]bool{}
+	for _, w := range ai.contentWritesIn(fn) {
+		if w.How != "map update" && w.How != "delete" {
+			continue
+		}
+		for _, root := range ai.Roots(w.Target) {
+			if root.Kind == "fieldload" && strings.HasSuffix(root.Path, "."+field) {
+				writes[w.In.Block()] = true
+			}
+		}
+	}
+	for _, b := range fn.Blocks {
+		for _, in := range b.Instrs {
+			if call, ok := in.(*ssa.Call); ok {
+				if cal := p.Callee(call); cal != nil && cal != fn && p.IsProduct(cal) && p.mustWriteMapField(cal, field, depth+1) {
+					writes[b] = true
+				}
+			}
+		}
+	}
+	if writes[fn.Blocks[0]] {
+		return true
+	}
+	seen := map[*ssa.BasicBlock]bool{fn.Blocks[0]: true}
+	stack := []*ssa.BasicBlock{fn.Blocks[0]}
+	for len(stack) > 0 {
+		x := stack[len(stack)-1]
+		stack = stack[:len(stack)-1]
+		if _, isRet := x.Instrs[len(x.Instrs)-1].(*ssa.Return); isRet {
+			return false
+		}
+		for _, s := range x.Succs {
+			if !seen[s] && !writes[s] {
+				seen[s] = true
+				stack = append(stack, s)
+			}
+		}
+	}
+	return true
+}
